@@ -259,7 +259,7 @@ class PolicyOracle:
 
 def generate(seed, tier):
     r = random.Random(f'C15gen:{seed}')
-    o = {'conf': {'profile': r.choice(['fast', 'mid']), 'entries': 3}, 'faults': [k for k in ('drop',) if r.random() < 0.2],
+    o = {'conf': {'profile': r.choice(['fast', 'mid']), 'entries': 3, 'mixed_family': 0.15}, 'faults': [k for k in ('drop',) if r.random() < 0.2],
          'duration': r.choice([30, 50]), 'packets': r.randint(1, 4), 'both_initiate': r.random() < 0.3, 'intensity': 0.5}
     sc = workload.pair_scenario(seed, PROP, o)
     T = sc['until']
